@@ -259,7 +259,31 @@ def scatter_check(case):
         key = "labels:bad-channels" if isinstance(pats[pi], tuple) else "labels:scattered-outside"
         v.append((key, "%s %s labels %r: inside channel %d (label %d) keeps the common disturbance (%.1f dB); %d inside channels above -40 dB"
                   % (tab, variant, pats[pi] if isinstance(pats[pi], tuple) else pats[pi][:6], ch, labels[ch], float(np.max(db)), int(np.sum(db > -40)))))
-    return Res(v, o=(tab, variant), tr=1)
+    # channels labelled outside the brain are excluded from the spatial filter wherever they sit: they come back as the high-passed, re-aligned input ...
+    outside = labels == 3
+    ntr = 1
+    if outside.any():
+        refo = fourier.fshift(ref, h["sample_shift"], axis=1)
+        if not np.allclose(out[outside], refo[outside], rtol=0, atol=1e-13):
+            ch = np.flatnonzero(outside)[int(np.argmax(np.max(np.abs(out[outside] - refo[outside]), axis=1)))]
+            v.append(("labels:outside-filtered:anywhere", "%s %s labels-3 at %r: channel %d labelled outside the brain differs from the high-passed, re-aligned input by %.3g (the spatial filter touched it)"
+                      % (tab, variant, np.flatnonzero(outside)[:8].tolist(), ch, float(np.max(np.abs(out[ch] - refo[ch]))))))
+        # ... and what they carry has no influence on the inside channels
+        x2 = x.copy()
+        x2[outside] += 3e-3 * np.cos(np.arange(n) / 3.0)[None, :]
+        out2 = voltage.destripe(x2.copy(), fs, h=h, neuropixel_version=_version(tab), k_filter=(variant == "kfilt"), channel_labels=labels.copy())
+        ntr += 1
+        # bad channels are repaired from their neighbours, outside ones included (C15's business): compare the good channels
+        good = labels == 0
+        badch = np.flatnonzero((labels == 1) | (labels == 2))
+        oc = np.flatnonzero(outside)
+        reach = badch.size and np.min(np.hypot(h["x"][badch][:, None] - h["x"][oc][None, :], h["y"][badch][:, None] - h["y"][oc][None, :])) < 150
+        # (a bad channel within kriging reach of an outside channel is legitimately repaired from it and then takes part in the spatial filter)
+        if not reach and not np.allclose(out2[good], out[good], rtol=0, atol=1e-11):
+            ch = np.flatnonzero(good)[int(np.argmax(np.max(np.abs(out2[good] - out[good]), axis=1)))]
+            v.append(("labels:outside-leaks:anywhere", "%s %s labels-3 at %r: good channel %d changes by %.3g when only the outside-brain channels change"
+                      % (tab, variant, np.flatnonzero(outside)[:8].tolist(), ch, float(np.max(np.abs(out2[ch] - out[ch]))))))
+    return Res(v, o=(tab, variant), tr=ntr)
 
 
 # ------------------------------------------------------------------ (b2) arrays longer than the file batch size
@@ -308,6 +332,12 @@ def car_check(prefix):
     for rest in itertools.product(range(3), repeat=4):
         g = np.array(list(prefix) + list(rest))
         x = rng.standard_normal((6, 9)) * np.arange(1, 7)[:, None] + np.arange(6)[:, None]
+        # some channels record nothing (exactly constant: a disconnected site, a zero-filled channel): they belong to their group like any other
+        flat = sum(rest) % 4
+        if flat == 1:
+            x[int(rest[0])] = 0.0
+        elif flat == 2:
+            x[0], x[5] = 0.0, 2.5
         for op in ("median", "average"):
             out = voltage.car(x.copy(), collection=g.copy(), operator=op)
             ntr += 1
